@@ -145,8 +145,40 @@ func Check(h *History, o CheckOpts) ([]Problem, Stats) {
 	c.weakReads()
 	c.sessions()
 	c.measure()
-	sort.SliceStable(c.probs, func(i, j int) bool { return c.probs[i].Key < c.probs[j].Key })
+	sort.SliceStable(c.probs, func(i, j int) bool {
+		pi, pj := keyRank(c.probs[i].Key), keyRank(c.probs[j].Key)
+		if pi != pj {
+			return pi < pj
+		}
+		return c.probs[i].Key < c.probs[j].Key
+	})
 	return c.probs, c.st
+}
+
+// keyPriority: the most specific verdicts first (the first problem of a history becomes its signature); the
+// catch-all oracles (final state, linearizability) last.
+var keyPriority = []string{
+	"C18/panic", "C18/unexpected-error",
+	"C18/version-issued-twice", "C18/write-returned-empty-version", "C18/uid-changed-by-write",
+	"C18/cas-two-successes-on-one-version", "C18/uid-changed-within-lifetime", "C18/cas-success-on-unknown-version", "C18/two-live-lifetimes",
+	"C18/read-ignored-uid", "C18/read-phantom-version", "C18/read-from-the-future", "C18/uid-differs-from-written", "C18/owner-differs-from-written",
+	"C18/list-duplicate", "C18/list-outside-query", "C18/listbyowner-wrong-owner",
+	"C18/watch-error", "C18/watch-closed-without-restore", "C18/watch-survived-restore", "C18/watch-event-of-other-epoch",
+	"C18/watch-after-restore-replays-pre-restore-event",
+	"C18/watch-phantom-event", "C18/watch-delete-event-without-delete", "C18/watch-event-differs-from-written",
+	"C18/watch-second-end-of-snapshot", "C18/watch-unknown-event", "C18/watch-event-outside-query", "C18/watch-delete-in-listing", "C18/watch-listing-duplicate",
+	"C18/watch-event-repeat-or-reorder", "C18/watch-event-gap", "C18/watch-event-lost", "C18/watch-final-view-mismatch",
+	"C18/read-older-than-received-event", "C18/listbyowner-older-than-received-event", "C18/monotonic-read-regress",
+	"C18/final-state-mismatch", "C18/not-linearizable",
+}
+
+func keyRank(k string) int {
+	for i, p := range keyPriority {
+		if p == k {
+			return i
+		}
+	}
+	return len(keyPriority)
 }
 
 func (c *checker) index() {
